@@ -69,6 +69,7 @@ type c06case struct {
 	ReqArrived  bool     `json:"req_arrived"`  // server-side Receive returned the request (right size)
 	RespArrived bool     `json:"resp_arrived"` // client handler got the response (right size)
 	ClientErr   string   `json:"client_err,omitempty"`
+	ClientChan  string   `json:"client_chan_err,omitempty"` // first error the client's secure channel reported on its error channel
 	ServerRecv  string   `json:"server_recv_err,omitempty"`
 	ServerSend  string   `json:"server_send_err,omitempty"`
 	DialErr     string   `json:"dial_err,omitempty"`
@@ -334,6 +335,19 @@ func runExchange(cs *c06case) {
 		cs.ClientConn = connLim(conn)
 		cs.ClientPeer = peerLim(conn)
 		errch := make(chan error, 8)
+		var chanMu sync.Mutex
+		go func() {
+			for e := range errch {
+				if e != nil && e != io.EOF {
+					chanMu.Lock()
+					if cs.ClientChan == "" {
+						cs.ClientChan = classifyC06(e)
+					}
+					chanMu.Unlock()
+				}
+			}
+		}()
+		defer func() { time.Sleep(time.Millisecond); chanMu.Lock(); chanMu.Unlock() }()
 		sc, err := uasc.NewSecureChannel(url, conn, chanCfg(cs.Mode, false), errch)
 		if err != nil {
 			cs.DialErr = "newchannel: " + err.Error()
